@@ -12,7 +12,8 @@ def _key(r):
     rules += ["keep-" + k for k in ("within", "wh", "wd", "ww", "wm", "wy") if pol.get(k, {}).get("on")]
     if pol.get("tags"):
         rules.append("tag")
-    return "policy/%s/%s" % (r.get("src", "data"), "+".join(rules) or "empty")
+    # stable class key: the rule if exactly one is switched on, else "combined"
+    return "policy/%s/%s" % (r.get("src", "data"), rules[0] if len(rules) == 1 else ("combined" if rules else "empty"))
 
 
 def run(ctx):
@@ -44,7 +45,20 @@ def run(ctx):
 
     # 4. TLC judges every record
     n, bad, lines = ctx.check_records("Fn_Policy", allp, shard=ctx.pick(1500, 6000), timeout=2400)
-    for i in bad[:200]:
+    bykey = {}
+    for i in bad:
+        k = _key(json.loads(lines[i - 1]))
+        bykey[k] = bykey.get(k, 0) + 1
+    # report one violation per class first, so that every class shows up in the replay file
+    seen, order = set(), []
+    for i in bad:
+        k = _key(json.loads(lines[i - 1]))
+        if k not in seen:
+            seen.add(k)
+            order.append(i)
+    first = set(order)
+    order += [i for i in bad if i not in first][:100]
+    for i in order[:300]:
         r = json.loads(lines[i - 1])
         if r.get("kind") == "mono":
             d = "raising the policy removed a kept snapshot: %s keeps %s, %s keeps %s" % (r["pas"], r["ka"], r["pbs"], r["kb"])
@@ -70,7 +84,7 @@ def run(ctx):
         counters["cmd_" + k] = v
     cov = {"evaluations": n, "distinct_nontrivial": res1["distinct_nontrivial"] + res2["distinct_nontrivial"],
            "rule": res1["rule"] + " || command level: " + res2["rule"],
-           "samples": verif.samples_from(lines, 3), "records_checked_by_tlc": n, "records_rejected": len(bad),
+           "samples": verif.samples_from(lines, 3), "records_checked_by_tlc": n, "records_rejected": len(bad), "rejected_by_class": bykey,
            "record_kinds": kinds, "counters": counters,
            "design_run": {"cfg": main_cfg, "states": design["states"], "transitions": design["transitions"],
                           "lists_x_policies": [int(x) for x in dom[-1]] if dom else None,
